@@ -1151,3 +1151,13 @@ Proof.
   split; [exact OptFlattenNoneEx.ex_members_unnamed|]. split; [exact H3|]. split; [exact H4|exact OptFlattenNoneEx.ex_named].
 Qed.
 Print Assumptions C15_unoccurring_optflatten_nonvacuous.
+
+(** THE TYPED VALUE AGREES TOO.  [EnumValueParser::parse_ref] stores the first matching element of [value_variants()] (C04's
+    [enum_parse]: its index [k] among the kept variants); the derive model's extraction reads the stored string again with
+    [from_str] ([parse_scalar]).  The [k]-th kept variant is the declared variant the typed reading answers -- so re-reading
+    the raw value loses nothing. *)
+Theorem C15_enum_parse_ref_variant : forall e ic s k,
+  enum_parse clap_unicode ic (map fst (enum_pvs e)) s = ValueBase.VOk k ->
+  exists i pv, nth_error (lits e) k = Some (i, pv) /\ parse_scalar (TEnum e) ic s = Some (SvEnum i).
+Proof. exact enum_parse_ref_variant. Qed.
+Print Assumptions C15_enum_parse_ref_variant.
